@@ -22,7 +22,7 @@ def main():
     if not repo:
         print('no scratch repository: run under `vp run --with-repo` or pass --repo DIR'); return 2
     only = sys.argv[sys.argv.index('--only') + 1] if '--only' in sys.argv else ''
-    env = dict(os.environ, VERIF_REPO=repo)
+    env = dict(os.environ, VERIF_REPO=repo, VERIF_EVIDENCE_DIR=os.path.join(HERE, 'build', 'evidence_scratch'))
     rc, out = sh('git status --porcelain', cwd=repo)
     if out.strip():
         print('scratch repository not clean:\n' + out); return 2
